@@ -95,6 +95,8 @@ var contracts = map[string]*Contract{
 	"(*strings.Builder).WriteRune":   {Writes: []int{0}},
 	"(*strings.Builder).WriteString": {Writes: []int{0}},
 	"strings.Join":                   {Det: true},
+	"fmt.Fprintf":                    {Writes: []int{0}},
+	"io.WriteString":                 {Writes: []int{0}, Note: "w.Write([]byte(s)) unless w has WriteString"},
 	// --- std: encoding
 	"(*encoding/base64.Encoding).DecodeString":   {Det: true},
 	"(*encoding/base64.Encoding).EncodeToString": {Det: true},
